@@ -454,6 +454,8 @@ type FuncSpec struct {
 	slots        []*slotClause
 	line         specLine
 	assumeOnly   bool // contract assumed, not verified (listed in trusted base)
+	expanded     []*clause
+	expandedDone bool
 	timeout      int
 }
 
